@@ -52,12 +52,69 @@ func (w *w1) setupEtcd() {
 		for i := len(w.ledger) - 1; i >= 0; i-- {
 			rec := w.ledger[i]
 			if rec.task != "" && (task == rec.task || strings.HasPrefix(task, rec.task+"/")) {
+				if rec.multi {
+					return // which partition of the request this append belongs to is not observable here
+				}
 				rec.appendSeen = true
 				rec.heldAtAppend, rec.leaseNote = w.leaseHeldNow(rec)
 				return
 			}
 		}
 	})
+	// who the etcd server shows as live owner of each partition lease, step by step
+	w.ownerHist = map[string][]ownerAt{}
+	w.sim.OnStep(func() error {
+		for _, topic := range w.topics {
+			for p := int32(0); p < w.nparts; p++ {
+				key := fmt.Sprintf("%s/%s/%d", metadata.PartitionLeasePrefix(), topic, p)
+				inc := ""
+				if _, leaseID, ok := w.etcd.KeyInfo(key); ok && w.etcd.LeaseAlive(leaseID) {
+					inc = w.etcd.LeaseOwner(leaseID)
+				}
+				h := w.ownerHist[key]
+				if len(h) == 0 || h[len(h)-1].inc != inc {
+					w.ownerHist[key] = append(h, ownerAt{w.sim.Step(), inc})
+				}
+			}
+		}
+		return nil
+	})
+}
+
+type ownerAt struct {
+	step int
+	inc  string
+}
+
+// lostBeforeReply: incarnation inc was the live owner at some step of [from, to] but no longer at step to
+// (or never was): the request outlived its lease.
+func (w *w1) lostBeforeReply(topic string, part int32, inc string, from, to int) bool {
+	h := w.ownerHist[fmt.Sprintf("%s/%s/%d", metadata.PartitionLeasePrefix(), topic, part)]
+	for i, o := range h {
+		end := int(^uint(0) >> 1)
+		if i+1 < len(h) {
+			end = h[i+1].step
+		}
+		if o.inc == inc && o.step <= to && end >= to {
+			return false // owner at the step of the reply
+		}
+	}
+	return true
+}
+
+// ownedDuring: did incarnation inc hold the lease of topic/part at any step in [from, to]?
+func (w *w1) ownedDuring(topic string, part int32, inc string, from, to int) bool {
+	h := w.ownerHist[fmt.Sprintf("%s/%s/%d", metadata.PartitionLeasePrefix(), topic, part)]
+	for i, o := range h {
+		end := int(^uint(0) >> 1)
+		if i+1 < len(h) {
+			end = h[i+1].step
+		}
+		if o.inc == inc && o.step <= to && end >= from {
+			return true
+		}
+	}
+	return false
 }
 
 // etcdStoreFor creates the incarnation's EtcdStore on its own simulated client.
@@ -93,6 +150,30 @@ func (w *w1) judgeLease(rec *produceRec) {
 		return
 	}
 	w.sim.Probe("c19.produce-reply")
+	if rec.code == 0 && len(w.sim.Stats.FaultsFired) == 0 && !w.crashed {
+		// without any fault or crash no lease ever lapses: a broker that never was the live owner of the
+		// partition at any step of the request cannot have "held the lease when it appended"
+		w.sim.Probe("c19.ownership-during-request-judged")
+		if !w.ownedDuring(rec.topic, rec.part, rec.inc, rec.invoke, rec.ret) {
+			w.sim.Fail("C19", "success-for-partition-never-owned", "broker %s acknowledged a produce to %s/%d (base %d) in a run without faults, yet the lease of that partition was never held by it at any step of the request (steps %d..%d; owners seen: %v)", rec.inc, rec.topic, rec.part, rec.base, rec.invoke, rec.ret, w.ownerHist[fmt.Sprintf("%s/%s/%d", metadata.PartitionLeasePrefix(), rec.topic, rec.part)])
+			return
+		}
+	}
+	if rec.multi {
+		// per-partition append observation is not available for multi-partition requests; the
+		// ownership clause above and the write attribution below still apply
+		if rec.code == 6 {
+			w.sim.Probe("c19.not-leader")
+			prefix := w.partPrefix(rec.topic, rec.part)
+			for _, wr := range w.s3.Log {
+				if rec.task != "" && (wr.Task == rec.task || strings.HasPrefix(wr.Task, rec.task+"/")) && strings.HasPrefix(wr.Key, prefix) {
+					w.sim.Fail("C19", "write-after-not-leader", "partition %s/%d of a multi-partition produce to %s was answered NOT_LEADER_OR_FOLLOWER, yet the request wrote %s", rec.topic, rec.part, rec.inc, wr.Key)
+					return
+				}
+			}
+		}
+		return
+	}
 	if rec.code == 0 {
 		if !rec.appendSeen {
 			w.sim.Fail("C19", "success-without-append", "produce %s/%d acknowledged by %s but no append was observed for it", rec.topic, rec.part, rec.inc)
@@ -161,6 +242,9 @@ func w1GenLease(r *rand.Rand, c *simrt.Case, nclients, maxOps int) {
 		n := 2 + r.IntN(maxOps+2)
 		for i := 0; i < n; i++ {
 			switch x := r.IntN(10); {
+			case x < 2:
+				// every partition of the topic in one request: typically a mix of owned and foreign ones
+				c.Program = append(c.Program, simrt.Op{Actor: cl, Kind: "mproduce", B: int64(r.IntN(2)), C: int64(1 + r.IntN(3)), D: pick[int64](r, 1, -1)})
 			case x < 7:
 				// E selects the broker the request goes to (any broker, owner or not)
 				c.Program = append(c.Program, simrt.Op{Actor: cl, Kind: "produce", B: int64(r.IntN(2)), C: int64(1 + r.IntN(3)), D: pick[int64](r, 1, -1), S: "", A: 0})
